@@ -105,6 +105,7 @@ type c07Hist struct {
 
 	// Per-history observations for the non-triviality rule.
 	hostileDone   bool
+	lineLen       map[int64]int
 	firstSeq      int
 	nextSeq       int
 	sawLocations  int
@@ -423,6 +424,15 @@ func (h *c07Hist) readFile(name string) (ts []int64, size int64, ok bool) {
 			return nil, size, false
 		}
 		ts = append(ts, t.UnixNano())
+		if len(line) > 1400 {
+			h.lineLen[t.UnixNano()] = len(line)
+		}
+		if len(line) >= 16*1024 {
+			h.rec.Inconcl = append(h.rec.Inconcl, fmt.Sprintf("the generator produced a file record of %d bytes, beyond the 16 KiB the reader is built for", len(line)))
+			h.dead = true
+
+			return nil, size, false
+		}
 	}
 
 	return ts, size, true
@@ -580,6 +590,16 @@ func (h *c07Hist) reconcile(op string, mode int, force bool) {
 		}
 		h.rec.Events["flushes_observed"]++
 		h.rec.Events["entries_moved_memory_to_file"] += len(rest) - h.nF
+		for _, t := range rest[h.nF:] {
+			switch l := h.lineLen[t]; {
+			case l > 8192:
+				h.rec.Events["file_records_of_8_to_16_KiB"]++
+			case l > 4096:
+				h.rec.Events["file_records_of_4_to_8_KiB"]++
+			case l > 1400:
+				h.rec.Events["file_records_of_1.4_to_4_KiB"]++
+			}
+		}
 		h.nF = len(rest)
 
 		return
@@ -1027,6 +1047,9 @@ func (h *c07Hist) walkCursor(class string, base url.Values, limit int, full []in
 				return
 			}
 			cns = ct.UnixNano()
+			if h.lineLen[cns] > 0 {
+				h.rec.Events["cursor_walk_cursors_on_file_records_over_1400_bytes"]++
+			}
 		}
 		p := h.get(class, q)
 		if p == nil {
@@ -2125,7 +2148,7 @@ func c07RunHistory(rep *verifkit.Report, id int, base string, large bool, scan i
 		ivl: []time.Duration{time.Hour, 90 * time.Minute, 6 * time.Hour, 6 * time.Hour, 23 * time.Hour, 24 * time.Hour, 24 * time.Hour,
 			36 * time.Hour, 7 * 24 * time.Hour}[rng.Intn(9)],
 		enabled: true,
-		byTime:  map[int64]*c07Entry{}, gone: map[int64]string{},
+		byTime:  map[int64]*c07Entry{}, gone: map[int64]string{}, lineLen: map[int64]int{},
 		lastSizeF: -1, lastSizeR: -1,
 	}
 	if rng.Intn(12) == 0 {
@@ -2146,6 +2169,16 @@ func c07RunHistory(rep *verifkit.Report, id int, base string, large bool, scan i
 	h.world = c07NewWorld(rng, pad)
 	if rng.Intn(6) == 0 {
 		h.anonymize = true
+	}
+	if scan < 0 && !large && rng.Intn(6) == 0 {
+		// Records of every size up to the limit of the file reader, mixed
+		// with small ones; long names.
+		h.world.big = true
+		for _, n := range []int{63, 40} {
+			l := strings.Repeat("l", n-1)
+			h.world.hosts = append(h.world.hosts, "a"+l+".b"+l+".c"+l+".long.example")
+		}
+		rec.Classes["history_with_long_records"]++
 	}
 	if scan >= 0 {
 		h.world = &c07World{clients: map[string]*Client{"10.9.9.9": {Name: "Rare Box"}}}
@@ -2404,6 +2437,8 @@ func TestVerifC07(t *testing.T) {
 		{"location_invariance_comparisons_after_flush", 500}, {"location_invariance_comparisons_after_rotate", 200},
 		{"location_invariance_entries_moved_memory_to_file", 100},
 		{"rotation_checks_hourly", 100}, {"rotation_checks_start", 50},
+		{"file_records_of_1.4_to_4_KiB", 30}, {"file_records_of_4_to_8_KiB", 30}, {"file_records_of_8_to_16_KiB", 30},
+		{"cursor_walk_cursors_on_file_records_over_1400_bytes", 100},
 		{"rotations_that_aged_out_a_file_older_than_the_interval", 5},
 	} {
 		if got := rep.EventCount(need.event); got < need.min {
